@@ -132,6 +132,7 @@ fn true_root(chain: &Chain, pool: Pool, h: u32) -> [u8; 32] {
 fn check_trees(ctx: &Ctx, h: &mut Hist, st: &mut Stats, step: &str, full: bool) -> Result<(), Fail> {
     let chain = &h.chain;
     let ledger = &h.ledger;
+    let rows = h.w.note_rows();
     // unspent mined wallet notes per pool: (id, position, height, cm)
     let mut notes: BTreeMap<Pool, Vec<(usize, u64, u32, [u8; 32])>> = BTreeMap::new();
     for n in &ledger.known_notes {
@@ -142,7 +143,22 @@ fn check_trees(ctx: &Ctx, h: &mut Hist, st: &mut Stats, step: &str, full: bool) 
         if ledger.links.iter().any(|(nn, sb, _)| nn == n && ledger.scanned.contains(sb)) {
             continue;
         }
-        notes.entry(note.pool).or_default().push((*n, note.position, note.height, note.cm));
+        // The path the WALLET produces is the one at the position it has recorded for the note: take the position
+        // from the wallet's own row (and require it to be the chain's position of the note).
+        let row = rows.iter().find(|r| r.pool == note.pool && r.txid == note.txid && r.out_index == note.out_index);
+        let pos = match row.and_then(|r| r.position) {
+            Some(p) => p,
+            None => continue, // compared by C01 (mined rows); nothing to witness without a recorded position
+        };
+        vensure!(
+            pos == note.position,
+            "note-position-wrong",
+            "{step}: the wallet records position {pos} for the mined note {:?} whose commitment is at position {} of the {:?} tree",
+            note,
+            note.position,
+            note.pool
+        );
+        notes.entry(note.pool).or_default().push((*n, pos, note.height, note.cm));
     }
     let empty = vec![];
     let sap_notes = notes.get(&Pool::Sapling).unwrap_or(&empty).clone();
@@ -345,6 +361,7 @@ fn run_case_opt(ctx: &Ctx, case: &Case, exclude_known: bool) -> CaseResult {
         .label_if(h.chain.base_sizes != [0, 0, 0], "non-empty-birthday-frontier")
         .label_if(h.chain.crossed_shard_boundary(), "shard-boundary-crossed")
         .label_if(h.flags.subtree_roots_put > 0, "subtree-roots-put")
+        .label_if(h.flags.remined_txs > 0, "wallet-tx-mined-again-after-reorg")
         .label_if(f.out_of_order, "out-of-order")
         .label_if(f.truncations > 0, "rewind")
         .label_if(st.empty_boundary_blocks > 0, "empty-boundary-block")
@@ -446,11 +463,11 @@ fn main() {
             |_| format!("{:?}", known_stale_subtree_root_case()),
         );
     }
-    ctx.run_prop_with("histories", || arb_case(22, 12), tier.pick(256, 15_000), 50, |c| run_case(&ctx, c));
+    ctx.run_prop_with("histories", || arb_case_opts(22, 12, true), tier.pick(256, 15_000), 50, |c| run_case(&ctx, c));
     ctx.require_label_fraction("histories", "witness-verified", 0.4);
     ctx.require_label_fraction("histories", "rewind", 0.15);
     ctx.require_label_fraction("histories", "retention-boundary-scanned", 0.08);
-    ctx.run_prop_with("long-chains", || arb_case(12, 100), tier.pick(32, 3_000), 30, |c| run_case(&ctx, c));
+    ctx.run_prop_with("long-chains", || arb_case_opts(12, 100, true), tier.pick(32, 3_000), 30, |c| run_case(&ctx, c));
     ctx.require_label_fraction("long-chains", "checkpoint-budget-reached", 0.25);
     ctx.finish();
 }
